@@ -41,8 +41,28 @@ def run(ctx):
                        lambda cell: [posit_arg(P16, cell[0][0], cell[0][1], 0)], [cells], mspec(P16, name), 16, exhaustive_limit=exh)
         tot += decided(st)
         ctx.count('p16_points_decided_' + name, st['points_decided'])
+    # kernel probes: constant propagation through the fixed-point kernels at definition-derived arguments (every 1/64th of the encoding space,
+    # the posit probes, and the arguments with simple exact images); the result must be the correctly rounded value (singleton verdicts only)
+    import probes
+    import rules_rounding
+
+    def kernel_task(c, pr, name):
+        import collections
+        st = collections.Counter()
+        path = pr.inherent(P16.tykey, name)
+        if not path:
+            return st
+        step = 64 if ctx.tier == 'quick' else 8
+        pts = sorted(set(list(range(1, 1 << 16, step)) + probes.posit_probes(P16, 2)))
+        sp = mspec(P16, name)
+        pts = [(u,) for u in pts if sp([u]) is not None]
+        st['points'] = run_points(c, pr, 'GCR', 'P16E1::%s' % name, path, P16, pts, sp, key_label='P16E1::%s' % name)
+        return st
+    st_ = rules_rounding.run_parallel(ctx, prog, [(kernel_task, (name,), {}) for name in P16_FUNCS], prefix='kernel_probe_')
+    ctx.count('kernel_probe_points_total', st_['points'])
+    ctx.rules.append('kernel probes: the ten P16E1 functions at every 64th encoding (8th in the thorough tier) and the specification-critical encodings vs the 400-bit oracle')
     ctx.require('C11 decided cells', tot, 400)
     ctx.trusted += ['mpmath 1.3 at 400 bits with a two-sided margin test (a point whose rounding is not certain is skipped, never guessed)']
-    ctx.undecided['general_path'] = 'the fixed-point polynomial kernels between the cut-offs (the bulk of the 65536 results per P16E1 function)'
+    ctx.undecided['general_path'] = 'the fixed-point polynomial kernels between the cut-offs are decided at the probe points only (singleton verdicts)'
     return LEVEL, ('P8E0::exp and P8E0::ln are decided for all 256 inputs (table index term, bounds, every entry against the correctly rounded value); the ten P16E1 '
                    'functions are decided on every cell in front of the polynomial kernels: NaR, domain errors, exact zeros, saturation and "rounds to 1" cut-offs.')
